@@ -16,9 +16,11 @@ import (
 )
 
 // genFork builds a gov.fork step (real miner-contract add_hardfork transaction).
-//   A    caller: 0 stored miner-contract owner, 1 chain owner, 2 sc.yaml owner, >=3 account (A-3)
-//   S    fork names (one entry of the input map each)
-//   I[0] fee kind, I[1] nonce kind, I[2] raw kind, then per name: round kind, offset
+//
+//	A    caller: 0 stored miner-contract owner, 1 chain owner, 2 sc.yaml owner, >=3 account (A-3)
+//	S    fork names (one entry of the input map each)
+//	I[0] fee kind, I[1] nonce kind, I[2] raw kind, then per name: round kind, offset
+//
 // Round kinds: 0 current block round + offset, 1 absolute offset, 2 MaxInt64, 3 negative,
 // 4 unparsable text, 5 fractional, 6 MinInt64, 7 beyond int64.
 func genFork(r *sim.RNG, names []string) sim.Step {
